@@ -17,7 +17,8 @@ RTOL_BAD = 1e-6  # ... and a deviation reproduces only if it exceeds this one
 
 
 class Scenario:
-    def __init__(self, name, fn, family=None, core=True, twin=False, params=None, doc=""):
+    def __init__(self, name, fn, family=None, core=True, twin=False, params=None, doc="", replayable=True):
+        self.replayable = replayable
         self.name = name
         self.fn = fn
         self.family = family or name.split("/")[0]
